@@ -5,7 +5,7 @@ VERIF = os.path.dirname(os.path.dirname(os.path.abspath(__file__)))
 sys.path.insert(0, VERIF)
 from sa import alpha, names
 root = sys.argv[1] if len(sys.argv) > 1 else "/repo/discopy"
-table, cmps, loops, exits = {}, {}, {}, {}
+table, cmps, loops, exits, meths = {}, {}, {}, {}, {}
 for dp, dn, fns in os.walk(root):
     dn[:] = [d for d in dn if d != "__pycache__"]
     for f in sorted(fns):
@@ -21,6 +21,7 @@ for dp, dn, fns in os.walk(root):
             if c:
                 cmps[name] = c
             exits[name] = names.exits_table_of(name, ast.parse(open(p).read()))
+            meths[name] = names.methods_table_of(name, ast.parse(open(p).read()))
             lp = alpha.loop_table_of(ast.parse(open(p).read()))
             if lp:
                 loops[name] = lp
@@ -28,4 +29,5 @@ json.dump(table, open(alpha.TABLE, "w"), indent=0, sort_keys=True)
 json.dump(cmps, open(alpha.CMP_TABLE, "w"), indent=0, sort_keys=True)
 json.dump(loops, open(alpha.LOOP_TABLE, "w"), indent=0, sort_keys=True)
 json.dump(exits, open(names.EXITS_TABLE, "w"), indent=0, sort_keys=True)
+json.dump(meths, open(names.METHODS_TABLE, "w"), indent=0, sort_keys=True)
 print("%d modules, %d functions with locals" % (len(table), sum(len(v) for v in table.values())))
